@@ -9,6 +9,10 @@ pub fn rt_add_u64(a: u64, b: u64) -> (r: u64) ensures a + b <= u64::MAX, r == a 
 #[verifier::external_body]
 pub fn rt_sub_u64(a: u64, b: u64) -> (r: u64) ensures a >= b, r == a - b { a - b }
 
+/// u128 `/` panics on a zero divisor (abort, A1): partial-correctness contract
+#[verifier::external_body]
+pub fn rt_div_u128(a: u128, b: u128) -> (r: u128) ensures b != 0, r == a / b { a / b }
+
 pub open spec fn seq_sum_u64(ws: Seq<u64>) -> nat decreases ws.len() {
     if ws.len() == 0 { 0 } else { seq_sum_u64(ws.drop_last()) + ws.last() as nat }
 }
